@@ -179,3 +179,50 @@ DEFAULT_RUN = Contract(
     frame=["TestNode.should_rerun"],
     props=["C03", "C01", "C08", "C10"],
 )
+
+
+# ---------------------------------------------------------------- is_setup_ready / is_cleanup_ready (C01, C02, C05, C08)
+def readonly_view(field):
+    """TestNode.setup_nodes / cleanup_nodes: ReadOnlyDict(self._x) is a read-only copy of the dictionary."""
+    def prop(eng, st, obj, args, kw, node):
+        yield st, eng.read_field(st, obj, "TestNode", field, Map(Ref("TestNode"), SetK(Ref("TestObject"))))
+    return prop
+
+
+from contracts.c16 import bridged_form, bridged_form_fn  # noqa: E402
+
+READY_OVERRIDES = dict(DECISION_OVERRIDES)
+READY_OVERRIDES["TestNode.setup_nodes"] = readonly_view("_setup_nodes")
+READY_OVERRIDES["TestNode.cleanup_nodes"] = readonly_view("_cleanup_nodes")
+READY_OVERRIDES["TestNode.bridged_form"] = bridged_form
+BF_STUB = {"TestNode.bridged_form": (bridged_form_fn, "TestNode", STR, "property")}
+
+
+def elig(n):
+    return f"(len({n}.objects) == 0 or worker.id in {n}.params['name'])"
+
+
+def _ready(name, edges, register, props):
+    keys = f"keys_of(self.{edges})"
+    dropped = f"self.{register}.get_workers"
+    return Contract(
+        target=f"{NODE}::TestNode.{name}",
+        params={"self": Ref("TestNode"), "worker": Ref("TestWorker")},
+        requires=[f"wf_map(self.{edges})", f"forall({keys}, lambda n: n is not None and 'name' in n.params)",
+                  f"self.{register} is not None"],
+        overrides=READY_OVERRIDES,
+        stubs=BF_STUB,
+        loops={0: {"invariants": [
+            f"forall(range(0, _i), lambda j: implies({elig(keys + '[j]')}, worker.id in {dropped}({keys}[j])))"]}},
+        ensures=[
+            ("exact", f"result == forall({keys}, lambda n: implies({elig('n')}, worker.id in {dropped}(n)))"),
+            ("ignores_foreign", f"implies(forall({keys}, lambda n: not {elig('n')}), result)"),
+        ],
+        result_kind=BOOL,
+        frame=[],
+        props=props,
+    )
+
+
+IS_SETUP_READY = _ready("is_setup_ready", "_setup_nodes", "_dropped_setup_nodes", ["C01", "C02", "C08"])
+IS_CLEANUP_READY = _ready("is_cleanup_ready", "_cleanup_nodes", "_dropped_cleanup_nodes", ["C02", "C05", "C08"])
